@@ -41,8 +41,19 @@ Theorem C20_ghost_adaptive_backward_order :
   (pos GEnableHooks l < length l)%nat.
 Proof. vm_compute. repeat split; repeat constructor. Qed.
 
+
+(* update_max_grad_norm as a whole (with its guard): after a logical batch without a single sample (empty Poisson draws) the norm is unchanged -- not nan, not inf --
+   and after any other batch it is the rule of C20_update_rule *)
+Theorem C20_update_after_empty_batch (C noisy lr gamma maxc minc : R) : ada_update_step C noisy 0 lr gamma maxc minc = C.
+Proof. exact (ada_update_step_empty C noisy lr gamma maxc minc). Qed.
+Theorem C20_update_step_rule (C noisy n lr gamma maxc minc : R) : minc <= maxc -> n <> 0 ->
+  ada_update_step C noisy n lr gamma maxc minc = Rmax minc (Rmin maxc (C * exp (- lr * (noisy / n - gamma)))).
+Proof. exact (ada_update_step_rule C noisy n lr gamma maxc minc). Qed.
+
 Print Assumptions C20_update_rule.
 Print Assumptions C20_count_noninterference.
 Print Assumptions C20_sigma_split_identity.
 Print Assumptions C20_sigma_g_exceeds_nominal.
 Print Assumptions C20_ghost_adaptive_backward_order.
+Print Assumptions C20_update_after_empty_batch.
+Print Assumptions C20_update_step_rule.
